@@ -186,3 +186,6 @@ def run(ctx):
                    [site(td, p) for p in push],
                    what='SQL DELETE buffers row handlers taken from a scan that pinned an older snapshot: after a compaction in between '
                         'the delete vectors point at row-sets that are gone and the acknowledged DELETE removes nothing')
+
+    from rules.c07 import compaction_touches_only_what_it_merged
+    compaction_touches_only_what_it_merged(ctx, prog, 'C09-R5')
